@@ -132,6 +132,7 @@ def job_backend(asc):
     for li, leaf in enumerate(leaves):
         if leaf.kind == 'exc':
             recs.append(q(f"{tag}:leaf{li}", 'sat', detail=repr(leaf.value)))
+            recs.append(cex('C05:backend:raise', f'from_backend_params raised {leaf.value!r}', dict(fn='backend', asc=asc, obs_length=0.77), name=f"{tag}:leaf{li}"))
             continue
         fr = leaf.value
         dfv, dtv = sr / nb / fft, intf / (sr / nb / fft)
@@ -147,7 +148,28 @@ def job_backend(asc):
                             dict(fn='backend', asc=asc, obs_length=core.model_float(m, L)), name=f"{tag}:leaf{li}"))
     r, _ = core.check(pre + [z3.Not(z3.Or(*[l.cond() for l in leaves]))], timeout_ms=30000)
     recs.append(q(f"{tag}:split-complete", r, leaves=len(leaves)))
+    # the parameter mapping handed to a caller is the caller's: editing it does not reach later frames
+    bad = backend_params_history(F)
+    r, _ = core.check([RV(int(not bad)) != 1])
+    recs.append(q(f"{tag}:params-not-shared", r, trivial=True, detail=bad or ''))
+    if bad:
+        recs.append(cex('C05:backend:shared-params', bad, dict(fn='backend', asc=asc, obs_length=0.77), name=f"{tag}:params-not-shared"))
     return recs
+
+
+def backend_params_history(Fm):
+    kw = dict(obs_length=1.3, sample_rate=1024.0, num_branches=8, fftlength=16, int_factor=2)
+    p1 = Fm.params_from_backend(**kw)
+    want = dict(p1)
+    p1['tchans'] = 1
+    p1['df'] = 123.0
+    p2 = Fm.params_from_backend(**kw)
+    if dict(p2) != want:
+        return f"params_from_backend returns {dict(p2)} after a caller edited the mapping it got from an earlier identical call (expected {want})"
+    fr = Fm.Frame.from_backend_params(fchans=3, fch1=4096.0, ascending=True, **kw)
+    if fr.tchans != want['tchans'] or fr.df != want['df']:
+        return f"from_backend_params builds tchans={fr.tchans}, df={fr.df} after a caller edited an earlier parameter mapping (expected {want['tchans']}, {want['df']})"
+    return None
 
 
 def job_units():
@@ -511,7 +533,8 @@ def replay_backend(p):
     fr = stg.Frame.from_backend_params(fchans=3, obs_length=L, sample_rate=1024.0, num_branches=8, fftlength=16, int_factor=2, fch1=4096.0, ascending=p['asc'])
     T = fr.tchans
     bad = not (fr.df == 8.0 and fr.dt == 0.25 and T * 0.25 <= L < (T + 1) * 0.25 and len(fr.ts) == T)
-    return bad, f"obs_length={L!r}: tchans={T}, df={fr.df}, dt={fr.dt}"
+    hist = backend_params_history(stg.frame)
+    return bad or bool(hist), f"obs_length={L!r}: tchans={T}, df={fr.df}, dt={fr.dt}" + (f"; {hist}" if hist else '')
 
 
 def replay_orient(p):
